@@ -75,13 +75,17 @@ def gen_config(rng, mech, attrs, shape):
     cfg = dict(mech=mech, eps=eps, delta=delta, bounded=False, accounting='zcdp')
     pairs = list(itertools.combinations(attrs, 2))
     if mech == 'aim':
-        k = int(rng.randint(2, min(len(pairs), 5) + 1))
+        if rng.rand() < 0.5:
+            # a workload that leaves some attributes of the domain untouched
+            sub = [attrs[i] for i in rng.permutation(len(attrs))[:int(rng.randint(2, len(attrs)))]]
+            pairs = list(itertools.combinations(sorted(sub, key=attrs.index), 2))
+        k = int(rng.randint(1, min(len(pairs), 5) + 1))
         W = [pairs[i] for i in rng.permutation(len(pairs))[:k]]
         if len(attrs) >= 3 and rng.rand() < 0.4:
             W.append(tuple(attrs[:3]))
         wts = [float(gen.pick(rng, [1.0, 1.0, 0.5, 2.0, 3.0])) for _ in W]
         n1 = len(set(a for cl in W for a in cl))
-        cfg.update(workload=list(zip(W, wts)), rounds=gen.pick(rng, [None, None, int(2 * n1 + 2), int(30 * len(attrs))]),
+        cfg.update(workload=list(zip(W, wts)), rounds=gen.pick(rng, [None, None, int(2 * n1 + 2), int(2 * len(attrs) + 3), int(30 * len(attrs))]),
                    max_model_size=float(gen.pick(rng, [80, 80, 0.001])))
     elif mech == 'mwem':
         noise = gen.pick(rng, ['gaussian', 'gaussian', 'laplace'])
